@@ -135,7 +135,10 @@ PROPS = {
     },
     "C20": {
         "class_prefixes": ["c20-", "harness-crash"],
-        "subs": [{"name": "typed", "n_quick": 1200, "n_thorough": 6000, "oracle": False,
+        "subs": [{"name": "comp", "n_quick": 700, "n_thorough": 8000, "model": "coq/Codec/Composite.v, coq/Codec/Size.v",
+             "rule": "the composite cases of C03 (28 list-encoded types, field vectors read through generated accessors): here the `canon` lines - "
+                     "serialized_size(x) against size_composite (SizeSerializer model driven by the derived serialize) and against the length of to_vec(x)"},
+                 {"name": "typed", "n_quick": 1200, "n_thorough": 6000, "oracle": False,
              "rule": "typed protocol items (9 performatives + Performative, 5 SASL frames, DeliveryState/Outcome with every variant, Error, "
                      "Source, Target, TargetArchetype, Coordinator, message sections, Message<Body<Value>> with all 64 section subsets x 4 body kinds): "
                      "random field presence and boundary values; on the implementation: from_slice(to_vec(x)) == x and re-encodes equally, "
